@@ -35,6 +35,7 @@ type Machine struct {
 
 	tasks   []*task
 	curTask *task
+	clock   int64
 
 	eng *Engine
 }
